@@ -34,8 +34,12 @@ func init() {
 		Run:      ruleCur2})
 	Register(&Rule{ID: "R-CUR-4", Props: []string{"C16"}, Floor: 10,
 		Doc:      "WhileInCursor passes a FetchPosition whose only initialised part is Position.Token = parser.NEXT; FetchCursor forwards that token (or the default NEXT) unchanged through ReferenceScope.FetchCursor and CursorMap.Fetch to Cursor.Fetch; Cursor.Fetch, evaluated for each fetch-position token, first stores index+1 for NEXT, index-1 for PRIOR, 0 for FIRST, RecordLen()-1 for LAST, number for ABSOLUTE and index+number for RELATIVE",
-		Controls: []string{"CtlCursor).Fetch", "CtlMoveHelperCursor).move"},
+		Controls: []string{"CtlCursor).Fetch", "CtlMoveHelperCursor).move", "CtlSatCursor).Fetch"},
 		Run:      ruleCur4})
+	Register(&Rule{ID: "R-CUR-9", Props: []string{"C16"}, Floor: 1,
+		Doc:      "in Cursor.Fetch (or the private helper that holds its position switch), evaluated for position RELATIVE, index + number is stored only on paths whose branch conditions — read as linear inequalities over index, number and RecordLen() — bound the sum from below and from above: the operand of FETCH RELATIVE is any int, an unguarded sum wraps around and a step far past one end parks the pointer at the other",
+		Controls: []string{"CtlCursor).Fetch", "CtlMoveHelperCursor).move"},
+		Run:      ruleCur9})
 	Register(&Rule{ID: "R-CUR-5", Props: []string{"C16"}, Floor: 4,
 		Doc:      "every path of Open that can return a nil error stores the new view, index = -1 and fetched = false; every path of Close that can return a nil error stores view = nil",
 		Controls: []string{"CtlCursor).Open", "CtlCursor).Close"},
@@ -694,7 +698,7 @@ func curSubStores(al *ssa.Alloc) (stores map[string][]ssa.Value, ok bool) {
 
 func ruleCur4(c *Ctx) {
 	start := len(c.Obs)
-	defer func() { c.negControls(start, "OkMoveHelperCursor).move", "OkCursor).Fetch") }()
+	defer func() { c.negControls(start, "OkMoveHelperCursor).move", "OkCursor).Fetch", "OkSatCursor).Fetch") }()
 	next, okN := curParserConst(c, "NEXT")
 	if !okN {
 		c.Unknown("anchor:lib/parser.NEXT", "-", "cannot-analyse: parser.NEXT is not a constant")
@@ -909,6 +913,32 @@ func ruleCur4(c *Ctx) {
 	}
 }
 
+// R-CUR-9 (written after be64c59, DESIGN §4 D58): the RELATIVE move cannot wrap.
+func ruleCur9(c *Ctx) {
+	start := len(c.Obs)
+	defer func() { c.negControls(start, "OkSatCursor).Fetch") }()
+	real := false
+	for _, ct := range curTypes(c) {
+		f := ct.methods["Fetch"]
+		if f == nil || f.Blocks == nil {
+			continue
+		}
+		// the position is the first int parameter, the number the second
+		for i, p := range f.Params {
+			if b, ok := p.Type().Underlying().(*types.Basic); ok && b.Kind() == types.Int {
+				if !ct.control {
+					real = true
+				}
+				curFetchTableIn(c, f, i, ct, 0, true)
+				break
+			}
+		}
+	}
+	if !real {
+		c.Unknown("anchor:lib/query.(*Cursor).Fetch", "-", "cannot-analyse: (*Cursor).Fetch with an int position parameter not found")
+	}
+}
+
 func curHoldsParam(al *ssa.Alloc, prm *ssa.Parameter) bool {
 	n, good := 0, true
 	for _, r := range *al.Referrers() {
@@ -922,10 +952,13 @@ func curHoldsParam(al *ssa.Alloc, prm *ssa.Parameter) bool {
 
 // curFetchTable evaluates Cursor.Fetch for every fetch-position token.
 func curFetchTable(c *Ctx, fn *ssa.Function, idx int, ct *curType) {
-	curFetchTableIn(c, fn, idx, ct, 0)
+	curFetchTableIn(c, fn, idx, ct, 0, false)
 }
 
-func curFetchTableIn(c *Ctx, fn *ssa.Function, idx int, ct *curType, depth int) {
+// wrapOnly = R-CUR-9: only the RELATIVE arm is evaluated, and the obligation is
+// that index + number is computed only on paths whose branch conditions bound the
+// sum on both sides (it cannot wrap around).
+func curFetchTableIn(c *Ctx, fn *ssa.Function, idx int, ct *curType, depth int, wrapOnly bool) {
 	c.Touch(fn)
 	pos := fn.Params[idx]
 	// the position switch may live in a private helper of the cursor: a call of a
@@ -962,8 +995,10 @@ func curFetchTableIn(c *Ctx, fn *ssa.Function, idx int, ct *curType, depth int) 
 				if !first {
 					continue
 				}
-				c.Ok(c.KeyAt(fn, "hands the fetch position to "+g.Name()), c.Pos(cv), "the first move of the pointer is made by "+c.P.Name(g)+", called before any index store of this function")
-				curFetchTableIn(c, g, j, ct, depth+1)
+				if !wrapOnly {
+					c.Ok(c.KeyAt(fn, "hands the fetch position to "+g.Name()), c.Pos(cv), "the first move of the pointer is made by "+c.P.Name(g)+", called before any index store of this function")
+				}
+				curFetchTableIn(c, g, j, ct, depth+1, wrapOnly)
 				return
 			}
 		}
@@ -1023,6 +1058,12 @@ func curFetchTableIn(c *Ctx, fn *ssa.Function, idx int, ct *curType, depth int) 
 	for _, r := range rows {
 		tok, ok := curParserConst(c, r.name)
 		key := c.KeyAt(fn, "position "+r.name+" moves to "+r.want)
+		if wrapOnly {
+			if r.name != "RELATIVE" {
+				continue
+			}
+			key = c.KeyAt(fn, "position RELATIVE: index + number cannot wrap around")
+		}
 		if !ok {
 			c.Unknown(key, c.FnPos(fn), "parser."+r.name+" is not a constant")
 			continue
@@ -1034,7 +1075,42 @@ func curFetchTableIn(c *Ctx, fn *ssa.Function, idx int, ct *curType, depth int) 
 			continue
 		}
 		n, bad := 0, ""
+		exact, saturated := 0, 0
 		var at ssa.Instruction
+		if wrapOnly {
+			unbounded := ""
+			for _, p := range paths {
+				for _, st := range p.stores {
+					fa, ok := st.Addr.(*ssa.FieldAddr)
+					if !ok || core.FieldOwner(fa) != owner {
+						continue
+					}
+					if r.check(st.Val) {
+						n++
+						at = st
+						lo, hi := curSumBounded(p.facts, isIndexLoad, isRecordLen, number)
+						switch {
+						case !lo && !hi:
+							unbounded = "neither end"
+						case !hi && unbounded == "":
+							unbounded = "the upper end"
+						case !lo && unbounded == "":
+							unbounded = "the lower end"
+						}
+					}
+					break
+				}
+			}
+			switch {
+			case n == 0:
+				c.Ok(key, c.FnPos(fn), "no path computes index + number")
+			case unbounded != "":
+				c.Bad(key, c.Pos(at), "index + number is stored on a path whose branch conditions bound "+unbounded+" of the sum: number is the user's FETCH RELATIVE operand (any int), so the sum wraps around and a step far past the last row parks the pointer before the first one (and vice versa): the following PRIOR / NEXT fetch returns the wrong row")
+			default:
+				c.OkN(key, c.Pos(at), fmt.Sprintf("%d path(s) store index + number, each behind branch conditions that bound the sum below and above", n), n)
+			}
+			continue
+		}
 		for _, p := range paths {
 			for _, st := range p.stores {
 				fa, ok := st.Addr.(*ssa.FieldAddr)
@@ -1043,6 +1119,17 @@ func curFetchTableIn(c *Ctx, fn *ssa.Function, idx int, ct *curType, depth int) 
 				}
 				n++
 				at = st
+				if r.name == "RELATIVE" && !r.check(st.Val) {
+					// a saturated move: the boundary is stored instead of index + number on a
+					// path whose conditions imply that index + number lies beyond that boundary
+					if why := curSaturated(st.Val, p.facts, isIndexLoad, isRecordLen, number); why != "" {
+						saturated++
+						break
+					}
+				}
+				if r.check(st.Val) {
+					exact++
+				}
 				if !r.check(st.Val) {
 					bad = fmt.Sprintf("for position %s the first store to the cursor index (at %s) is not %s: FETCH %s lands on the wrong row", r.name, c.Pos(st), r.want, r.name)
 				}
@@ -1054,10 +1141,132 @@ func curFetchTableIn(c *Ctx, fn *ssa.Function, idx int, ct *curType, depth int) 
 			c.Bad(key, c.FnPos(fn), "for position "+r.name+" no path moves the cursor index")
 		case bad != "":
 			c.Bad(key, c.Pos(at), bad)
+		case exact == 0:
+			c.Bad(key, c.Pos(at), "for position "+r.name+" no path stores "+r.want+": every path parks the pointer on a boundary")
+		case saturated > 0:
+			c.OkN(key, c.Pos(at), fmt.Sprintf("%d path(s) evaluated: %d store %s, %d store the boundary that %s is proved to lie beyond (saturated move)", len(paths), exact, r.want, saturated, r.want), len(paths))
 		default:
 			c.OkN(key, c.Pos(at), fmt.Sprintf("%d path(s) evaluated, the first index store on each is %s", len(paths), r.want), len(paths))
 		}
 	}
+}
+
+// curLin is i·index + n·number + r·RecordLen() + k.
+type curLin struct {
+	i, n, r, k int64
+}
+
+func curLinSub(a, b curLin) curLin { return curLin{a.i - b.i, a.n - b.n, a.r - b.r, a.k - b.k} }
+
+func curLinNorm(v ssa.Value, depth int, isIndexLoad, isRecordLen func(ssa.Value) bool, number ssa.Value) (curLin, bool) {
+	if depth > 8 {
+		return curLin{}, false
+	}
+	if k, ok := core.ConstInt(v); ok {
+		return curLin{k: k}, true
+	}
+	switch {
+	case number != nil && v == number:
+		return curLin{n: 1}, true
+	case isIndexLoad(v):
+		return curLin{i: 1}, true
+	case isRecordLen(v):
+		return curLin{r: 1}, true
+	}
+	b, ok := v.(*ssa.BinOp)
+	if !ok || (b.Op != token.ADD && b.Op != token.SUB) {
+		return curLin{}, false
+	}
+	x, ok1 := curLinNorm(b.X, depth+1, isIndexLoad, isRecordLen, number)
+	y, ok2 := curLinNorm(b.Y, depth+1, isIndexLoad, isRecordLen, number)
+	if !ok1 || !ok2 {
+		return curLin{}, false
+	}
+	if b.Op == token.SUB {
+		y = curLin{-y.i, -y.n, -y.r, -y.k}
+	}
+	return curLin{x.i + y.i, x.n + y.n, x.r + y.r, x.k + y.k}, true
+}
+
+// curFactLin reads a branch fact as the linear inequality e ≥ 0.
+func curFactLin(f scpFlowFact, isIndexLoad, isRecordLen func(ssa.Value) bool, number ssa.Value) (curLin, bool) {
+	b, ok := f.cond.(*ssa.BinOp)
+	if !ok {
+		return curLin{}, false
+	}
+	x, ok1 := curLinNorm(b.X, 0, isIndexLoad, isRecordLen, number)
+	y, ok2 := curLinNorm(b.Y, 0, isIndexLoad, isRecordLen, number)
+	if !ok1 || !ok2 {
+		return curLin{}, false
+	}
+	var e curLin
+	op, truth := b.Op, f.val
+	switch {
+	case (op == token.LSS && truth) || (op == token.GEQ && !truth): // x < y
+		e = curLinSub(y, x)
+		e.k--
+	case (op == token.LEQ && truth) || (op == token.GTR && !truth): // x ≤ y
+		e = curLinSub(y, x)
+	case (op == token.GTR && truth) || (op == token.LEQ && !truth): // x > y
+		e = curLinSub(x, y)
+		e.k--
+	case (op == token.GEQ && truth) || (op == token.LSS && !truth): // x ≥ y
+		e = curLinSub(x, y)
+	default:
+		return curLin{}, false
+	}
+	return e, true
+}
+
+// curSumBounded reports whether the branch facts of a path bound index + number
+// from below (a fact of the form index + number + k ≥ 0) and from above (a fact of
+// the form a·RecordLen() + k − index − number ≥ 0, a ∈ {0, 1}).
+func curSumBounded(facts []scpFlowFact, isIndexLoad, isRecordLen func(ssa.Value) bool, number ssa.Value) (lo, hi bool) {
+	for _, f := range facts {
+		e, ok := curFactLin(f, isIndexLoad, isRecordLen, number)
+		if !ok {
+			continue
+		}
+		if e.i == 1 && e.n == 1 && e.r == 0 {
+			lo = true
+		}
+		if e.i == -1 && e.n == -1 && (e.r == 0 || e.r == 1) {
+			hi = true
+		}
+	}
+	return
+}
+
+// curSaturated decides whether storing val instead of index + number is a
+// saturated move: val is a boundary of the result set (−1 or the record count)
+// and one of the branch facts of the path, read as a linear inequality over
+// {index, number, RecordLen()}, implies that index + number lies on or beyond
+// that boundary (where Fetch would park the pointer on the same value anyway).
+// Returns the reason, "" when it is not.
+func curSaturated(val ssa.Value, facts []scpFlowFact, isIndexLoad, isRecordLen func(ssa.Value) bool, number ssa.Value) string {
+	type lin = curLin
+	sub := curLinSub
+	// goal ≥ 0 is what must follow from the path
+	var goal lin
+	what := ""
+	if k, ok := core.ConstInt(val); ok && k == -1 {
+		goal, what = lin{i: -1, n: -1, k: -1}, "index + number ≤ −1" // −1 − (i+n) ≥ 0
+	} else if isRecordLen(val) {
+		goal, what = lin{i: 1, n: 1, r: -1}, "index + number ≥ RecordLen()" // (i+n) − r ≥ 0
+	} else {
+		return ""
+	}
+	for _, f := range facts {
+		e, ok := curFactLin(f, isIndexLoad, isRecordLen, number)
+		if !ok {
+			continue
+		}
+		d := sub(goal, e)
+		if d.i == 0 && d.n == 0 && d.r == 0 && d.k >= 0 {
+			return what + " follows from the branch condition"
+		}
+	}
+	return ""
 }
 
 // ---------------------------------------------------------------------------
